@@ -41,7 +41,9 @@ Inductive addres := AddOk (e : wevent) (changed : bool) | AddRefused (reason : p
 Inductive authres := AuthOk | AuthErr (reason : pystr) | AuthCrash.
 Inductive op :=
 | OOpen (c : nat)
-| OMsg (c : nat) (m : jv) (limited : bool)          (* a decoded client frame; limiter verdict *)
+| OMsg (c : nat) (m : jv) (limited : bool)          (* a decoded client frame; limiter verdict.  limited = true
+                                                        with m not well-formed never happens (the limiter is asked
+                                                        after validate_message) *)
        (rows : list (list pystr)) (prep : bool) (can_query : bool)   (* REQ: stored answer, prepare(), can_do(query) *)
        (add : addres) (auth : authres)              (* EVENT / AUTH outcomes *)
 | OBadJson (c : nat)                                 (* text the JSON decoder rejects (JSONDecodeError): ignored *)
@@ -49,7 +51,11 @@ Inductive op :=
                                                         UnicodeEncodeError on lone surrogates): generic handler, close 1013 *)
 | ORow (c : nat) (sid : pystr)                      (* the query task of the registered (c,sid) takes one step *)
 | ONotify (k : nat)                                 (* the k-th pending notify task runs *)
-| ODrop (c : nat).                                  (* the client goes away *)
+| ODrop (c : nat)                                   (* the client goes away *)
+| OReqGone (c : nat) (m : jv)                       (* the client sends a REQ and is gone before the send task ever
+                                                        runs: what the handler put on the subscription queue is never
+                                                        sent; frames written directly (NOTICE, close) are *)
+           (rows : list (list pystr)) (prep : bool) (can_query : bool).
 
 (* ---------- helpers ---------- *)
 Fixpoint get_conn (c : nat) (l : list (nat * conn)) : option conn :=
@@ -316,6 +322,24 @@ Definition step (cfg : rcfg) (st : rstate) (o : op) : sres :=
   | ODrop c =>
       match get_conn c (r_conns st) with
       | Some x => if c_open x then SOkS (drop_conn st c x) else SStuck
+      | None => SStuck end
+  | OReqGone c m rows prep can_query =>
+      match get_conn c (r_conns st) with
+      | Some x =>
+          if c_open x then
+            let '(st1, x1, d) := handle_msg cfg st c x m false rows prep can_query (AddCrash []) AuthOk in
+            match d with
+            | DUnmodelled => SUnmodelled
+            | _ =>
+                (* keep only the directly written frames of this step, unless the send task already existed *)
+                let fresh := firstn (length (c_out x1) - length (c_out x)) (c_out x1) in
+                let kept := if c_sender x then fresh
+                            else List.filter (fun f => match f with FrEvent _ _ | FrEose _ => false | _ => true end) fresh in
+                let x2 := {| c_subs := c_subs x1; c_out := kept ++ c_out x; c_open := c_open x1; c_throttle := c_throttle x1;
+                             c_sender := c_sender x1; c_deferred := [] |} in
+                SOkS (drop_conn st1 c x2)
+            end
+          else SStuck
       | None => SStuck end
   end.
 
